@@ -327,6 +327,38 @@ def extract_table(chk, prog):
     return m, f, cfg, ex, top, states, table
 
 
+_ws_cache = {}
+
+
+def reader_whitespace(prog):
+    """Characters (of the representative classes) the reader skips at top
+    level, read off its decision table; if the table cannot be extracted the
+    standard set is assumed (C08 itself reports the extraction problem)."""
+    k = id(prog)
+    if k in _ws_cache:
+        return _ws_cache[k]
+    ws = set()
+    try:
+        sub = Check('C08', 'other', 'quick', [], [])
+        m, f, cfg, ex, top, states, table = extract_table(sub, prog)
+        for cname, ch in CLASSES.items():
+            skips = True
+            for p in table[('TOP', cname)]:
+                if any(d[0] == 'pos < size' and d[1] is False
+                       for d in p['decisions']):
+                    continue
+                ev = [e for e in p['events'] if e != '<read>'
+                      and e.replace(' ', '') != 'pos+=1']
+                if ev or p['end'] is not top:
+                    skips = False
+            if skips:
+                ws.add(ch)
+    except AnalysisError:
+        ws = {' ', '\t', '\n', '\r'}
+    _ws_cache[k] = ws
+    return ws
+
+
 def rule_r1(chk, m, f, top, states, table):
     chk.rule('C08.R1', 'scanner decision table == SMT-LIB 2.6 lexicon '
              '(white space SP/TAB/LF/CR; ( ) ; terminate a token; "" inside '
